@@ -105,6 +105,7 @@ fn main() {
             image::scenario_script(&focus, &mut sink, &outdir)
         }
         "image-range-sweep" => image::scenario_range_sweep(seed, cases, &mut sink, &outdir),
+        "image-branch-merge-sweep" => image::scenario_branch_merge_sweep(seed, cases, &mut sink, &outdir),
         "image-branch-ops" => image::scenario_branch_ops(seed, cases, &mut sink, &outdir),
         "image-prefix-tail" => image::scenario_prefix_tail(&mut sink, &outdir),
         "image-prefix-shrink" => image::scenario_prefix_shrink(&mut sink, &outdir),
